@@ -232,8 +232,10 @@ Proof. reflexivity. Qed.
 
 Definition expected_fillDirectories_conds : list string :=
 [
+  "err != nil";
   "dirNode == nil || dirNode.Digest == nil";
   "err != nil";
+  "cycle";
   "err == errBlobNotFound";
   "err != nil";
   "err != nil";
